@@ -19,6 +19,10 @@ RULE = ('grid epochs 0..3 x train batches 0..3 x validation (none, 0, 1, 2 batch
         '(off / 3 label modes) x initial training flag x initial grad mode x initial module tree consistent / with submodules switched on their own, run on the real Trainer with a model holding '
         'BatchNorm and Dropout, recording wrappers around model / optimizer / engine / Tensor.backward; quick samples the '
         'grid, thorough enumerates it. Non-trivial: at least one epoch and one batch. loaders partly iterated before fit or peeked at inside the callbacks; Trainer.test under both gradient modes, with the Trainer constructed under either mode. Plus accuracy cases in 3 modes. '
+        'RE-ASSIGNMENTS (surg): fit / test cases whose model holds its layers in named attributes and on which 1-4 identity-preserving registry operations are done before the optimizer is built / before fit / inside the training callback '
+        '(the same child assigned to the name that holds it via setattr and __setattr__, register_module / add_module again, a second name for the same child, two attributes swapped and swapped back, a child replaced and restored, '
+        'the same Parameter re-assigned / register_parameter again / under a second name, a converter walking all children); modes, parameters and statistics are read from the layer objects themselves, the expected trace is the one of the untouched model, '
+        'and parameters() / submodules() must afterwards list exactly the objects held. '
         'VALUES: (ev) the real Evaluator driven through random step/compute/reset/state sequences (3 modes, accuracy on/off, epoch and step callbacks, prefix None/val, '
         'batches of 0, 1 and 2..6 samples of different sizes, scores on scales 4 / 1024 / 2^24 crowded around the 0.5 threshold and full of ties, (B,) and (B,1) layouts) against evStep/evCompute/evReset; '
         '(hist) the real Trainer.fit on an identity model with a criterion returning planned dyadic losses, loaders whose batches differ in size, with/without validation/evaluator/callbacks, '
@@ -69,6 +73,11 @@ def cases(rng, tier):
     for c in list(grid):
         if c['e'] >= 1 and c['nt'] >= 1 and c['g0'] == 1 and (c['ct'], c['cv']) == (0, 0) and not any(k_ in c for k_ in ('mix', 'peek', 'frz', 'gc')):
             grid.append(dict(c, again=('fit', 'fitval', 'test')[(c['e'] + c['nt'] + (c['nv'] or 0) + c['tr0']) % 3]))
+    # RE-ASSIGNMENTS / RE-REGISTRATIONS that leave the module tree what it was (the same child / parameter object assigned to the name that
+    # holds it, registered again, bound to a second name, two attributes swapped and swapped back, a child replaced and restored, a
+    # converter walking all children), done before the optimizer is built / before fit / inside the training callback
+    surg_pool = [c for c in grid if c['e'] >= 1 and c['nt'] >= 1 and c['g0'] == 1 and not any(k_ in c for k_ in ('mix', 'peek', 'frz', 'gc', 'again'))]
+    surg = [dict(c, surg=_gen_surgery(rng, c)) for c in rng.sample(surg_pool, 40 if tier == 'quick' else 600)]
     tests = []
     for nb in range(4):
         for tr0 in (0, 1):
@@ -78,10 +87,11 @@ def cases(rng, tier):
                         tests.append({'kind': 'test', 'e': 0, 'nt': nb, 'nv': None, 'ct': 0, 'cv': 0, 'ev': None, 'tr0': tr0, 'g0': g0, 'gc': gc, 'mix': mix})
     if tier == 'quick':
         tests = rng.sample(tests, 40)
+    tests += [dict(c, surg=_gen_surgery(rng, c)) for c in rng.sample([t for t in tests if t['nt'] >= 1], 8 if tier == 'quick' else 40)]
     if tier == 'quick':
         must = [c for c in grid if c['e'] == 2 and c['nt'] == 2 and c['ct'] == 1 and c['cv'] == 1 and c['tr0'] == 0 and c['g0'] == 1]
         grid = must + rng.sample(grid, 220) + rng.sample([c for c in grid if c.get('again')], 24)
-    out = grid + tests
+    out = grid + surg + tests
     for _ in range(30 if tier == 'quick' else 300):
         n = rng.randint(1, 9)
         mode = rng.pick(MODES[1:])
@@ -94,6 +104,45 @@ def cases(rng, tier):
         c['lines'] = _lines(c)
         c['desc'] = ' ; '.join(c['lines'])[:600]
     return out
+
+
+SURGERY_OPS = ('same-child', 'same-child/__setattr__', 'register_module-again', 'add_module-again', 'second-name', 'swap-and-back', 'replace-and-restore',
+               'same-parameter', 'register_parameter-again', 'parameter-second-name', 'converter-walk')
+SURGERY_AT = ('before-optimizer', 'before-fit', 'in-training-callback')
+
+
+def _gen_surgery(rng, c):
+    ops = [[rng.pick(SURGERY_OPS), rng.randrange(4), rng.randrange(4)] for _ in range(rng.randint(1, 4))]
+    at = rng.pick(SURGERY_AT if c.get('ct') and c['kind'] == 'fit' else SURGERY_AT[:2])
+    return {'at': at, 'ops': ops}
+
+
+def _surgery(nn, model, names, ops):
+    """every operation leaves each name bound to the object it was bound to (and adds at most further names for the same objects)"""
+    for op, i, j in ops:
+        n, n2 = names[i], names[j]
+        child = getattr(model, n)
+        pnames = [k for k in ('weight', 'bias') if isinstance(getattr(child, k, None), nn.Parameter)]
+        if op == 'same-child': setattr(model, n, child)
+        elif op == 'same-child/__setattr__': model.__setattr__(n, getattr(model, n))
+        elif op == 'register_module-again': model.register_module(n, child)
+        elif op == 'add_module-again': (getattr(model, 'add_module', None) or model.register_module)(n, child)
+        elif op == 'second-name': setattr(model, n + '_too', child)
+        elif op == 'swap-and-back':
+            for _ in range(2):
+                x, y = getattr(model, n), getattr(model, n2)
+                setattr(model, n, y); setattr(model, n2, x)
+        elif op == 'replace-and-restore':
+            setattr(model, n, nn.ReLU()); setattr(model, n, child)
+        elif op == 'same-parameter':
+            for k in pnames: setattr(child, k, getattr(child, k))
+        elif op == 'register_parameter-again':
+            for k in pnames: child.register_parameter(k, getattr(child, k))
+        elif op == 'parameter-second-name':
+            for k in pnames: setattr(child, k + '_too', getattr(child, k))
+        elif op == 'converter-walk':
+            for k, v in list(vars(model).items()):
+                if isinstance(v, nn.Module): setattr(model, k, v)
 
 
 def _pred(c):
@@ -136,10 +185,41 @@ def _run_fit(c):
             trace.append(f'f{tr}{int(tm.gradient__)}')
             return super().forward(x)
 
-    model = Model(nn.Linear(F, 4), nn.BatchNorm1d(4), nn.Dropout(0.25), nn.Linear(4, 1 if c['ev'] == 'binary' else K))
+    layers = [nn.Linear(F, 4), nn.BatchNorm1d(4), nn.Dropout(0.25), nn.Linear(4, 1 if c['ev'] == 'binary' else K)]
+    surg = c.get('surg')
+    NAMES = ['first', 'norm', 'drop', 'last']
+
+    class Net(nn.Module):
+        # children held in named attributes; what is OBSERVED (modes, parameters, statistics) is read from the layer objects
+        # themselves, never through the module's own registry
+        def __init__(self):
+            super().__init__()
+            for n_, l_ in zip(NAMES, layers): setattr(self, n_, l_)
+        def train(self, *a, **k):
+            trace.append('T'); return super().train(*a, **k)
+        def eval(self):
+            trace.append('E'); return super().eval()
+        def forward(self, x):
+            flags = {m.training for m in [self] + layers}
+            tr = '?' if len(flags) != 1 else str(int(flags.pop()))
+            trace.append(f'f{tr}{int(tm.gradient__)}')
+            return layers[3](layers[2](layers[1](layers[0](x))))
+
+    class _View:        # the model as the rest of this function reads it
+        def __init__(self, m): self.__dict__['m'] = m
+        def submodules(self): return list(layers)
+        def parameters(self): return list(params0)
+        def __getattr__(self, k): return getattr(self.__dict__['m'], k)
+        def __setattr__(self, k, v): setattr(self.__dict__['m'], k, v)
+
+    real_model = Net() if surg else Model(*layers)
+    params0 = [p_ for l_ in layers for p_ in l_.parameters()]
+    model = _View(real_model) if surg else real_model
     if c.get('frz'):                      # the first layer is frozen when the optimizer is built and unfrozen by a callback later
         for p_ in model.submodules()[0].parameters(): p_.requires_grad = False
-    inner = optim.SGD(model.parameters(), lr=0.05, momentum=0.5)
+    if surg and surg['at'] == 'before-optimizer': _surgery(nn, real_model, NAMES, surg['ops'])
+    inner = optim.SGD(real_model.parameters(), lr=0.05, momentum=0.5)
+    n_opt_params = len(real_model.parameters())
     cleared = [True]
 
     class Opt:
@@ -200,6 +280,7 @@ def _run_fit(c):
         trace.append('ct')
         ncb[0] += 1
         if c.get('frz') and ncb[0] == 2: model.unfreeze()
+        if surg and surg['at'] == 'in-training-callback' and ncb[0] == 1: _surgery(nn, real_model, NAMES, surg['ops'])
         if c.get('peek') == 2: next(iter(l), None)          # the callback looks at a batch of the loader it is handed
     def cbV_peek(l):
         if c.get('peek') == 2: next(iter(l), None)
@@ -212,7 +293,7 @@ def _run_fit(c):
     g_before = tm.gradient__
     tm.gradient__ = bool(c.get('gc', 1))          # the gradient mode in force while the Trainer object is constructed
     try:
-        tr = Trainer(model, Engine)
+        tr = Trainer(real_model, Engine)
         tr.compile(criterion, Opt(), ev)
     finally:
         tm.gradient__ = g_before
@@ -239,6 +320,7 @@ def _run_fit(c):
     if mix:
         for j in ([1, 2], [0, 3], [2])[mix - 1]:
             model.submodules()[j].training = not bool(c['tr0'])
+    if surg and surg['at'] == 'before-fit': _surgery(nn, real_model, NAMES, surg['ops'])
     if c.get('peek') == 1:                                   # the caller looked at the first batches before handing the loaders over
         next(iter(tl), None)
         if vl is not None:
@@ -271,12 +353,16 @@ def _run_fit(c):
                 chunk = ls[e_i * nb:(e_i + 1) * nb]
                 if not chunk or abs(float(v) - sum(chunk) / len(chunk)) > 1e-5 * (1 + abs(float(v))):
                     ok_mean = False
-    flags = {m.training for m in [model] + model.submodules()}
+    flags = {m.training for m in [real_model] + model.submodules()}
     training = '?' if len(flags) != 1 else str(int(flags.pop()))
+    listing = True
+    if surg:      # what the module lists afterwards: exactly the layer / parameter objects it holds
+        listing = ({id(m) for m in real_model.submodules()} == {id(l_) for l_ in layers} and {id(p_) for p_ in real_model.parameters()} == {id(p_) for p_ in params0}
+                   and len(real_model.parameters()) == len(params0) and n_opt_params == len(params0))
     if c['kind'] == 'test':
-        return (f"trace={','.join(trace) or '_'} steps={trace.count('s')} training={training} grad={int(g_after)}", {'valpure': pure[0], 'lossmean': True})
+        return (f"trace={','.join(trace) or '_'} steps={trace.count('s')} training={training} grad={int(g_after)}", {'valpure': pure[0], 'lossmean': True, 'listing': listing})
     return (f"trace={','.join(trace) or '_'} steps={trace.count('s')} training={training} grad={int(g_after)} keys={keys}",
-            {'valpure': pure[0], 'lossmean': ok_mean, 'cleared': cleared[0]})
+            {'valpure': pure[0], 'lossmean': ok_mean, 'cleared': cleared[0], 'listing': listing})
 
 
 def _run_acc(c):
@@ -332,6 +418,8 @@ def compare(c, mo, io):
             diffs.append(('valpure', 'validation changes no parameter / statistic', 'changed'))
         if fl.get('lossmean') is False:
             diffs.append(('lossmean', 'epoch loss = mean of batch losses', 'differs'))
+        if fl.get('listing') is False:
+            diffs.append(('listing', 'after re-assigning / re-registering the objects it holds the model lists exactly its layers and their parameters', 'differs'))
         if fl.get('cleared') is False:
             diffs.append(('cleared', 'zero_grad clears the gradient of every trainable parameter', 'a gradient survived'))
     return diffs
@@ -352,6 +440,9 @@ def distribution(cases):
             continue
         k = c['kind'] + ('/val' if c.get('nv') is not None else '') + ('/ev' if c.get('ev') else '')
         d[k] = d.get(k, 0) + 1
+        if c.get('surg'):
+            for k in [f"re-assignment {c['surg']['at']}"] + [f're-assignment op: {o[0]}' for o in c['surg']['ops']]:
+                d[k] = d.get(k, 0) + 1
         if c.get('again'):
             d[f"fit on a Trainer used before ({c['again']})"] = d.get(f"fit on a Trainer used before ({c['again']})", 0) + 1
     return d
@@ -384,6 +475,8 @@ def oracle(c):
             return {'key': {'kind': 'test', 'class': 'gradmode'}, 'case': c, 'what': f"test left the global gradient mode at {f['grad']}, it found {c['g0']} (Trainer constructed under mode {c.get('gc', 1)})"}
         if not fl['valpure']:
             return {'key': {'kind': 'test', 'class': 'valpure'}, 'case': c, 'what': 'test changed a parameter or running statistic'}
+        if fl.get('listing') is False:
+            return {'key': {'kind': 'test', 'class': 'listing'}, 'case': c, 'what': f"after {c['surg']} (every name still bound to the object it held) the model no longer lists exactly its layers / parameters"}
         return None
     r = outcome(lambda: _run_fit(c))
     legal = c['g0'] == 1 and c['nt'] > 0 and (c['nv'] is None or c['nv'] > 0)
@@ -420,6 +513,8 @@ def oracle(c):
         return fail('lossmean', 'reported epoch loss is not the mean of the batch losses')
     if fl.get('cleared') is False:
         return fail('cleared', 'an update was not preceded by clearing the gradients: after optimizer.zero_grad() a trainable parameter still held a non-zero gradient')
+    if fl.get('listing') is False:
+        return fail('listing', f"after {c['surg']} (every name still bound to the object it held) the model / the optimizer built from it no longer lists exactly its layers / parameters")
     keys = {} if f['keys'] == '_' else dict((k, int(v)) for k, v in (kv.split(':') for kv in f['keys'].split(',')))
     want = {}
     if c['e'] > 0:
